@@ -84,6 +84,7 @@ fn main() {
         ("gen", "C05") => { c05::generate("C05", seed, &tier, &mut out); c01::generate("C05", seed, &tier, &mut out) }
         ("gen", "C04") => { c05::generate("C04", seed, &tier, &mut out); c01::generate("C04", seed, &tier, &mut out); c04::generate(seed, &tier, &mut out) }
         ("gen", "C07") => c01::generate("C07", seed, &tier, &mut out),
+        ("gen", "C18") => c01::generate("C18", seed, &tier, &mut out),
         ("gen", "C03") => c03::generate(seed, &tier, &mut out),
         ("gen", "C11") => c11::generate(seed, &tier, &mut out),
         ("gen", "C17") => c17::generate(seed, &tier, &mut out),
